@@ -1014,6 +1014,26 @@ fn mutate_pl(src: &str, class: &str, param: u64, deep: bool) -> String {
                 }
             }
             "number" => {
+                // without a CHECKSUM property the check sum is computed from the character widths
+                // (PLtoTF.2014.134): extreme widths are only seen by that code if it is dropped
+                if rng.chance(1, 2) {
+                    if let Some(i) = (1..toks.len()).find(|&i| toks[i] == "CHECKSUM" && toks[i - 1] == "(") {
+                        if let Some((a, z)) = group_at(&toks, i - 1) {
+                            toks.drain(a..=z);
+                        }
+                    }
+                    let wd: Vec<usize> = (0..toks.len().saturating_sub(4)).filter(|&i| toks[i] == "CHARWD").collect();
+                    for _ in 0..rng.below(3) {
+                        if !wd.is_empty() {
+                            let i = *rng.pick(&wd);
+                            if toks[i + 2] == "R" && i + 4 < toks.len() {
+                                toks[i + 4] = rng
+                                    .pick(&["2047.9999999", "-2047.9999999", "2047.0", "-300.0", "-1.0", "-16.5", "1024.0", "-1024.0"])
+                                    .to_string();
+                            }
+                        }
+                    }
+                }
                 for _ in 0..1 + rng.below(3) {
                     // replace "<prefix> <digits>" (two word tokens separated by white space) or one word
                     let idx: Vec<usize> = (0..toks.len().saturating_sub(2))
@@ -1112,10 +1132,17 @@ fn mutate_pl(src: &str, class: &str, param: u64, deep: bool) -> String {
                 if !toks.is_empty() {
                     let i = rng.below(toks.len() as u64) as usize;
                     toks.truncate(i + 1);
-                    if rng.chance(1, 3) {
-                        let t: Vec<char> = toks[i].chars().collect();
-                        let at = rng.below(t.len() as u64 + 1) as usize;
-                        toks[i] = t[..at].iter().collect();
+                    match rng.below(6) {
+                        0 | 1 => {
+                            let t: Vec<char> = toks[i].chars().collect();
+                            let at = rng.below(t.len() as u64 + 1) as usize;
+                            toks[i] = t[..at].iter().collect();
+                        }
+                        // the text ends with a line end / blanks right after the cut (a property name
+                        // whose data is missing at the very end of the file)
+                        2 => toks.push("\n".into()),
+                        3 => toks.push(rng.pick(&[" ", " \n", "\n\n", "\r\n", "\n "]).to_string()),
+                        _ => {}
                     }
                 }
             }
@@ -1187,7 +1214,27 @@ fn synth_pl(param: u64, deep: bool) -> String {
     let nchars = *rng.pick(&[0usize, 1, 2, 3, 5, 17, 64, 128, 256]);
     let first = if nchars >= 256 { 0 } else { rng.below((256 - nchars) as u64 + 1) as usize };
     let pool = *rng.pick(&[1usize, 2, 15, 16, 17, 63, 64, 65, 255, 256, 300]);
-    let vals: Vec<String> = (0..pool).map(|i| format!("R {}.{:04}", i / 7, (i * 1237 + rng.below(3) as usize) % 10000)).collect();
+    let mut vals: Vec<String> = (0..pool).map(|i| format!("R {}.{:04}", i / 7, (i * 1237 + rng.below(3) as usize) % 10000)).collect();
+    // one list in five also has negative and very large dimensions (the check sum of a list without
+    // CHECKSUM, the table compression and the fix-word packing see them)
+    if rng.chance(1, 12) {
+        // the whole pool spread over the legal range (-2048, 2048), or packed at one end of it:
+        // the gaps and midpoints of the table compression then exceed a fix word
+        let mode = rng.below(3);
+        for (i, v) in vals.iter_mut().enumerate() {
+            let x = match mode {
+                0 => -2047 + ((i as i64 * 4094) / (pool.max(2) as i64 - 1)),
+                1 => 2047 - (i as i64 % 40),
+                _ => -2047 + (i as i64 % 40),
+            };
+            *v = format!("R {}.{}", x, rng.below(10));
+        }
+    } else if rng.chance(1, 5) {
+        for _ in 0..1 + rng.below(4) {
+            let k = rng.below(vals.len() as u64) as usize;
+            vals[k] = real(&mut rng);
+        }
+    }
     let tagmode = rng.below(6);
     // half of the lists give character i the i-th value of the pool, so that the number of distinct
     // widths/heights/depths/italics is exactly min(#characters, pool): the table limits 255/15/15/63
